@@ -12,6 +12,7 @@ A scenario is a JSON-able dict (see futb_model.scenario_to_coq for the same data
   plan     list of host indices returned by the load balancer (analytics: {'master': m|None} = DSE graph analytics request,
            m = host index answered by the master lookup, None = lookup failed)
   target   None | host index  (execute(..., host=...))
+  inline   True: executor-first schedule for _retry_task (runs inside submit)
   timeout  True: the request has a client timeout (5 s of the fake clock); pool state 7 lets it elapse inside borrow_connection
   pools    initial pool state per host: 7 NoConnectionsAvailable after a borrow that outlasts the client timeout; 0 missing 1 shutdown 2 NoConnectionsAvailable 3 ConnectionBusy(send_msg)
            4 borrow raises other exception 5 send_msg raises ConnectionShutdown 6 healthy
@@ -343,6 +344,11 @@ def make_session_class():
             # like Session.submit: runs nothing and returns None once the session is shut down, else the executor's future
             if self.env.shut:
                 return None
+            if self.env.sc.get('inline') and getattr(fn, '__name__', '') == '_retry_task':
+                # executor-first schedule: the executor thread runs the retry before the submitting (event-loop) thread
+                # executes its next statement
+                fn(*args, **kwargs)
+                return ('ran-inline',)
             task = (fn, args, kwargs)
             self.env.queue.append(task)
             return task
